@@ -87,13 +87,14 @@ def make_classes():
             self._upd = logging_updater
             # the constant parts of the update are cached objects handed out again on every call (as
             # processes with static updates do); 'twin' is a second port wired to the same store as 'shared'
-            self._cached_shared = {'count': 1}
-            self._cached_twin = {'count2': 1}
+            # (both carry a nested dict under the same key: the engine has to merge them without writing into either)
+            self._cached_shared = {'count': 1, 'sub': {'c3': 1}}
+            self._cached_twin = {'count2': 1, 'sub': {'c4': 1}}
 
         def ports_schema(self):
             sch = {
-                'shared': {'count': {'_default': 0, '_emit': True}},
-                'twin': {'count2': {'_default': 0, '_emit': False}},
+                'shared': {'count': {'_default': 0, '_emit': True}, 'sub': {'c3': {'_default': 0, '_emit': False}}},
+                'twin': {'count2': {'_default': 0, '_emit': False}, 'sub': {'c4': {'_default': 0, '_emit': False}}},
                 'own': {'elapsed': {'_default': 0.0, '_emit': True, '_updater': self._upd}}}
             if self.parameters.get('flip'):
                 sch = dict(reversed(list(sch.items())))      # same ports, other listing order
@@ -207,8 +208,9 @@ def run_impl(c, timeout=3):
                 groups.append(CTX['log'])
             if n:
                 sh = eng.state.get_value()['shared']
-                groups[-1].append(['final', sh['count'], sh['count2'],
-                                   all(p._cached_shared == {'count': 1} and p._cached_twin == {'count2': 1}
+                groups[-1].append(['final', sh['count'], [sh['count2'], sh['sub']['c3'], sh['sub']['c4']],
+                                   all(p._cached_shared == {'count': 1, 'sub': {'c3': 1}} and
+                                       p._cached_twin == {'count2': 1, 'sub': {'c4': 1}}
                                        for p in processes.values())])
     except Hang:
         status = 'hang'
@@ -363,9 +365,9 @@ def oracle_all(c, ob):
                 if not intact:
                     out.append(('C01', 'the update objects a process returned were modified by the engine '
                                 '(they are handed out again at the next call)', 'update-object-mutated'))
-                if cnt2 != cnt:
-                    out.append(('C01', 'two ports of one process wired to the same store: %d updates arrived through '
-                                'one and %d through the other' % (cnt, cnt2), 'applied-twice'))
+                if any(x != cnt for x in cnt2):
+                    out.append(('C01', 'two ports of one process wired to the same store, each adding 1 per invocation to '
+                                'its own variables: the first counts %d, the others %r' % (cnt, cnt2), 'applied-twice'))
                 continue
             now = e[3] if e[0] in ('invoke', 'apply') else e[1]
             # ---- C03: the clock never decreases and never passes the end of the call
